@@ -159,6 +159,14 @@ theorem C19_step_inv (iv : Iv) (op : Op) (iv' : Iv) (h : StoreInv iv)
       unfold StoreInv at *
       simpa using h
     · cases hs
+  | assign c =>
+    simp only [step, assign] at hs
+    split at hs
+    · rename_i hc
+      simp only [Option.some.injEq] at hs
+      subst hs
+      exact hc
+    · cases hs
 
 /-- run a history of assignments; a rejected one (exception) leaves the state unchanged -/
 def run (iv : Iv) (ops : List Op) : Iv := ops.foldl (fun s op => (step s op).getD s) iv
